@@ -74,7 +74,7 @@ def chains(tier, rnd):
     out = []
     n = 260 if tier == "quick" else 4000
     for i in range(n):
-        shape = rnd.choice(["linear2", "linear3", "linear4", "diamond", "fanin", "rewrite"])
+        shape = rnd.choice(["linear2", "linear3", "linear4", "diamond", "fanin", "rewrite", "star_unknown"])
         tables = {}  # table -> {col: set of (base table, base col)}
         stmts = []
         expect_star = []  # (statement index, target, source table, expected expanded columns)
@@ -89,7 +89,11 @@ def chains(tier, rnd):
                 items.append(f"x.{c}" + (f" as {new}" if new != c else ""))
                 tables[tgt][new] = {(src, c)}
             kw = rnd.choice(["create table {t} as", "insert into {t}", "create view {t} as"]).format(t=tgt)
-            stmts.append(f"{kw} select {', '.join(items)} from {src} x")
+            # an incremental loader also reads its own target in a predicate
+            # (through a column the loader itself writes: reading any other column would say the table has that one too)
+            first_new = cols[0] if how == "same" else f"{cols[0]}_r{len(stmts)}"
+            own = f" where x.{cols[0]} not in (select {first_new} from {tgt})" if kw.startswith("insert") and rnd.random() < 0.3 else ""
+            stmts.append(f"{kw} select {', '.join(items)} from {src} x{own}")
 
         def derive(tgt, src, mode):
             nonlocal literal_middle
@@ -130,6 +134,11 @@ def chains(tier, rnd):
                     mode = "none"
                 derive(tgt, prev, mode)
                 prev = tgt
+        elif shape == "star_unknown":
+            # a star copy of a table nobody knows the columns of, read again by star: the wildcard is all there is to chain
+            tables["db.m1"] = {"*": {("ext.events", "*")}}
+            stmts.append(rnd.choice(["insert into db.m1 select * from ext.events", "create table db.m1 as select * from ext.events"]))
+            derive("db.fin", "db.m1", "star")
         elif shape == "diamond":
             base_select("db.m1", "db.s1", cols1, "same")
             derive("db.m2", "db.m1", rnd.choice(["star", "some"]))
@@ -176,7 +185,8 @@ def run(tier):
                 # the provider's catalog still holds outdated definitions of the tables this script (re)builds
                 # (only for a table the script creates with CREATE TABLE AS / CREATE VIEW: an INSERT without column list into a table the provider
                 # knows is legitimately named by the catalog's columns, C13)
-                if g["shape"] in ("same_unresolved_name_two_scopes", "rewrite") or "db.m1" not in g["tables"]:
+                # (nor for a table rebuilt as a star copy of unknown columns: what it then consists of is not decided by the script)
+                if g["shape"] in ("same_unresolved_name_two_scopes", "rewrite", "star_unknown") or "db.m1" not in g["tables"]:
                     continue
                 c["sql"] = c["sql"].replace("insert into db.m1 select x.", "create table db.m1 as select x.", 1)
                 c.update({"metadata": dict(MD, **{"db.m1": ["old1", "old2", "c1"]}), "provider": "dummy"})
@@ -238,7 +248,8 @@ def run(tier):
             for i, p in enumerate(ps):
                 w = p["facts"]["write"]
                 mine = [e for e in regs if e["at_stmt"] == i + 1]
-                if w and p["facts"]["col_edges"] and not mine:
+                # (a target whose only column is the unexpanded wildcard has nothing to register)
+                if w and [e for e in p["facts"]["col_edges"] if not e[1].endswith(".*")] and not mine:
                     run_.judge(b, "no_session_registration_after_writing_statement", {"statement": p["text"], "write": w, "session": [(e["op"], e.get("table"), e["at_stmt"]) for e in sess][:12]},
                                kf_id="KF-34" if g["literal_middle"] else None)
                 if not w and mine:
